@@ -2531,6 +2531,9 @@ func (data *Data) CreateIndexGroup(rpi *RetentionPolicyInfo, timestamp time.Time
 	igi.ID = data.MaxIndexGroupID
 	igi.StartTime = timestamp.Truncate(rpi.IndexGroupDuration).UTC()
 	igi.EndTime = igi.StartTime.Add(rpi.IndexGroupDuration).UTC()
+	if igi.StartTime.Before(time.Unix(0, models.MinNanoTime)) {
+		igi.StartTime = time.Unix(0, models.MinNanoTime).UTC()
+	}
 	if igi.EndTime.After(time.Unix(0, models.MaxNanoTime)) {
 		igi.EndTime = time.Unix(0, models.MaxNanoTime+1)
 	}
